@@ -1,5 +1,5 @@
 (* Props/C10.v — disk side placement (--eos, overflow to the next side) matches report and image. *)
-Require Import PyBase GenDisk Disk ThomsonDos DiskDefs DiskLoopProofs.
+Require Import PyBase GenDisk Disk ThomsonDos DiskDefs DiskLoopProofs DiskExactProofs.
 Open Scope Z_scope.
 
 (* shape of the report of ANY create/add invocation (Proofs/DiskDefs.v: log_wf): sides open in
@@ -49,3 +49,15 @@ Theorem C10_sections_match_image : forall (is_fd v init : bool) (fs : fsmap) (ar
     map dos_view new = map item_dos stored /\ map file_view new = map item_view stored.
 Proof. exact inject_report_matches_image. Qed.
 Print Assumptions C10_sections_match_image.
+
+(* refusals are exact: on a well-formed side, one store succeeds exactly when the side has enough
+   free blocks and a free catalogue entry (never used, or deleted), and is refused ('too big')
+   exactly otherwise - so a file moves to the next side only when it does not fit on this one *)
+Theorem C10_refusal_is_exact : forall (sd : side) (content name ext : list Z) (kind dtype : Z),
+  tool_readable sd = true -> write_args_ok name ext kind dtype content = true ->
+  (snd (write_file sd content name ext kind dtype) = Ok tt <->
+   needed_blocks (zlen content) <= free_count sd /\ has_free_slot sd = true) /\
+  (snd (write_file sd content name ext kind dtype) = Err EValue <->
+   free_count sd < needed_blocks (zlen content) \/ has_free_slot sd = false).
+Proof. exact write_file_refusal_exact. Qed.
+Print Assumptions C10_refusal_is_exact.
